@@ -705,12 +705,13 @@ def validate(traces_by_n, dev, label, chunk=7000):
 
 
 def classify(chk, failing, traces, meta, known):
-    """failing: {tid: (verdict, pos, mpos, [(clause, first step)])} judged under Dev=as-code.
+    """failing: {tid: (verdict, pos, mpos, [(clause, first step)], {deviation: first step it fired})}, judged
+    by RaftTrace.tla under Dev = registered deviations.
     A clause failing at a step before any model mismatch belongs to an execution the as-code model
-    reproduces exactly, i.e. it is caused by the registered deviations.  It is keyed by a deviation that
-    (a) fired in this execution before that step (without it the model stops matching the code there) and
-    (b) preferably is one TLC shows able to break this clause.  A clause failing after a model mismatch, or
-    with no registered deviation involved, is keyed by the clause name: a VIOLATION."""
+    reproduces exactly.  It is a known finding (key = deviation) only if a registered deviation that is able to
+    break this clause (ATTRIBUTION, checked by TLC in the thorough tier) fired at or before that step, i.e.
+    switching it off would have changed what the handlers computed in this very execution.  A clause failing
+    after a model mismatch, or with no such deviation involved, is keyed by the clause name: a VIOLATION."""
     for tid, (verdict, pos0, mpos, fl, first_fire) in sorted(failing.items()):
         for clause, pos in fl:
             st = traces[tid]["steps"][pos - 1]
